@@ -17,13 +17,14 @@ sys.setrecursionlimit(100000)
 SPEC_FUNCS = {}
 
 
-def spec(*argtypes, ret='int', abstract=False):
+def spec(*argtypes, ret='int', abstract=False, inline=False):
     """Register a spec function.  argtypes in {'int','int1','int2'}.  abstract=True: executable here, but only declared
     (uninterpreted, never unfolded) for the solver -- everything the proofs know about it comes from stated lemmas."""
     def deco(f):
         f._spec_argtypes = argtypes
         f._spec_ret = ret
         f._spec_abstract = abstract
+        f._spec_inline = inline      # non-recursive integer helper: the solver sees its body at every application
         SPEC_FUNCS[f.__name__] = f
         return f
     return deco
@@ -396,3 +397,62 @@ def Arange(n):
 def SuppMask(g, N):
     # boolean vector over the qubits: true where the string g is not the identity
     return [1 if (g[2 * i] != 0 or g[2 * i + 1] != 0) else 0 for i in range(N)]
+
+
+# ---------------------------------------------------------------- operator descriptions (C20): the parser pauli()
+# A description is a sequence of symbols.  Operator symbols (codes 0..3 / letters I X Y Z) each describe one qubit, in order;
+# every other symbol is a prefix symbol that describes no qubit.  Sign symbols set the phase ('+' / 4 -> 0, '-' / 5 -> 2,
+# 6 -> 1 (+i), 7 -> 3 (-i)), the letter 'i' multiplies by i.  Written from the documented convention (docstring of
+# pauli_tokenize, README), not from the body of pauli().
+@spec('int', inline=True)
+def IsOp(c):
+    return 1 if (0 <= c and c <= 3) else 0
+
+
+@spec('int', inline=True)
+def OpX(c):
+    return 1 if (c == 1 or c == 2) else 0
+
+
+@spec('int', inline=True)
+def OpZ(c):
+    return 1 if (c == 2 or c == 3) else 0
+
+
+@spec('int1', 'int')
+def Toks(a, k):
+    # number of prefix symbols among the first k integer codes
+    return 0 if k <= 0 else Toks(a, k - 1) + 1 - IsOp(a[k - 1])
+
+
+@spec('int1', 'int')
+def CodePhase(a, k):
+    # phase described by the first k integer codes: the last sign code decides
+    return 0 if k <= 0 else (0 if a[k - 1] == 4 else (2 if a[k - 1] == 5 else (1 if a[k - 1] == 6 else (3 if a[k - 1] == 7 else CodePhase(a, k - 1)))))
+
+
+# letters as character codes: I = 73, X = 88, Y = 89, Z = 90, '+' = 43, '-' = 45, 'i' = 105
+@spec('int', inline=True)
+def IsOpC(c):
+    return 1 if (c == 73 or c == 88 or c == 89 or c == 90) else 0
+
+
+@spec('int', inline=True)
+def OpXC(c):
+    return 1 if (c == 88 or c == 89) else 0
+
+
+@spec('int', inline=True)
+def OpZC(c):
+    return 1 if (c == 89 or c == 90) else 0
+
+
+@spec('int1', 'int')
+def ToksC(a, k):
+    return 0 if k <= 0 else ToksC(a, k - 1) + 1 - IsOpC(a[k - 1])
+
+
+@spec('int1', 'int')
+def CharPhase(a, k):
+    # '+' and '-' set the sign, every 'i' multiplies by i (so '-i' is 3, '+i' and 'i' are 1)
+    return 0 if k <= 0 else (0 if a[k - 1] == 43 else (2 if a[k - 1] == 45 else (CharPhase(a, k - 1) + 1 if a[k - 1] == 105 else CharPhase(a, k - 1))))
